@@ -117,9 +117,12 @@ def r2_cookie(ctx, F):
               "consume_cached_cookie must remove the cached position whether or not it matches (a stale position left behind is trusted by a later "
               "resume); it computes `%s`" % r[:300], loc=b.loc(), detail=r[:200])
     cl = F.closures_of(b.key)
-    ok = len(cl) == 1 and R(vf.VF(cl[0], inline_depth=0).ret(), cl[0]) in ("Eq(cookie, ^offset)", "Eq(^offset, cookie)")
-    ctx.check(rule, "consume/compares-offset", ok, "consume_cached_cookie: a hit must mean `cached == offset` (closure computes `%s`)" %
-              (R(vf.VF(cl[0], inline_depth=0).ret(), cl[0]) if cl else "?"), loc=b.loc())
+    ok = len(cl) == 1 and R(vf.VF(cl[0], inline_depth=0).ret(), cl[0]) in ("Eq(cookie, ^offset)", "Eq(^offset, cookie)") and \
+        "Option::is_some_and(HandleMap::remove_cookie(self.handle_map, handle), closure(" in r
+    # or, spelled as a comparison of the removed value with Some(offset)
+    ok = ok or (not cl and vf.fact("Eq(HandleMap::remove_cookie(self.handle_map, handle), Some(offset))") in r) or \
+        (not cl and re.search(r"\b(PartialEq|Option)::eq\(HandleMap::remove_cookie\(self\.handle_map, handle\), Some\(offset\)\)", r) is not None)
+    ctx.check(rule, "consume/compares-offset", ok, "consume_cached_cookie: a hit must mean `cached == offset` (it computes `%s`)" % r[:200], loc=b.loc())
 
     # cache_cookie
     b = F.method(PFS, "cache_cookie")
@@ -179,16 +182,16 @@ def r2_cookie(ctx, F):
     ok = len(s_off) == 1 and len(s_zero) == 1
     if ok:
         g = [(R(x, b), l) for (x, l, u) in v.guards(s_off[0].bb)]
-        ok = ("PassthroughFs::consume_cached_cookie(self, handle, offset)", 0) in g and ("Gt(offset, MAX)", 0) in g and \
+        ok = ("PassthroughFs::consume_cached_cookie(self, handle, offset)", 0) in g and ("Le(offset, MAX)", "otherwise") in g and \
             R(v.call_args(s_off[0])[2], b) == "SEEK_SET" and R(v.call_args(s_zero[0])[2], b) == "SEEK_SET"
-        extra = [t for (t, l) in g if not t.startswith(("Eq(0, size)", "discr(Result::branch(PassthroughFs::get_dirdata", "PassthroughFs::consume_cached_cookie", "Gt(offset, MAX)"))]
+        extra = [t for (t, l) in g if not t.startswith(("Eq(0, size)", "discr(Result::branch(PassthroughFs::get_dirdata", "PassthroughFs::consume_cached_cookie", "Le(offset, MAX)", "Ne(0, size)"))]
         ok = ok and not extra
     ctx.check(rule, "do_readdir/seek-on-miss", ok, "do_readdir must lseek64(fd, offset, SEEK_SET) exactly when the cached position missed and offset <= i64::MAX", loc=b.loc())
     # fast path taken only on hit or successful seek
     so = vf.def_value(v, b, "seek_ok")
     t = R(so, b, v) if so is not None else ""
-    want = ("phi{!PassthroughFs::consume_cached_cookie(self, handle, offset) => phi{!Gt(offset, MAX) => phi{!Ge(LSEEK, 0) && "
-            "!PartialEq::ne(Error::raw_os_error(Error::last_os_error()), <const>) => 0 | Ge(LSEEK, 0) => 1} | Gt(offset, MAX) => 0} | "
+    want = ("phi{!PassthroughFs::consume_cached_cookie(self, handle, offset) => phi{Le(offset, MAX) => phi{"
+            "!PartialEq::ne(Error::raw_os_error(Error::last_os_error()), <const>) && Lt(LSEEK, 0) => 0 | Le(0, LSEEK) => 1} | Lt(MAX, offset) => 0} | "
             "PassthroughFs::consume_cached_cookie(self, handle, offset) => 1}")
     tt = re.sub(r"k\([^)]*promoted\[\d+\]\)", "<const>", t).replace(R(v.call_expr(s_off[0]), b, v) if s_off else "?", "LSEEK")
     ctx.check(rule, "do_readdir/seek_ok", tt == want, "do_readdir: `seek_ok` is `%s`" % tt[:400], loc=b.loc(), detail=tt[:200])
@@ -217,7 +220,7 @@ def r2_cookie(ctx, F):
     ctx.check(rule, "do_readdir/walk-after-unlock", any(b.dominates(d.bb, cm.bb) for d in drops_after), "do_readdir calls the consumer while holding the file lock", loc=cm.loc())
     # size == 0: nothing
     g0 = [(R(x, b), l) for (x, l, u) in v.guards(gf.bb)]
-    ctx.check(rule, "do_readdir/size0", ("Eq(0, size)", 0) in g0, "do_readdir no longer answers size == 0 with an empty listing up front", loc=b.loc())
+    ctx.check(rule, "do_readdir/size0", ("Ne(0, size)", "otherwise") in g0, "do_readdir no longer answers size == 0 with an empty listing up front", loc=b.loc())
 
     # other position movers on a handle's fd
     movers = {}
@@ -387,13 +390,9 @@ def nonzero_guard(gg):
             continue
         if l == "otherwise" and not t.startswith(("Eq(", "Ne(", "Gt(", "Lt(", "Ge(", "Le(")):
             return True          # match on the payload: `0 => stop, _ => continue`
-        if t.startswith("Eq(") and ("Eq(0, " in t[:7] or t.endswith(", 0)")) and l == 0:
+        if t.startswith("Ne(0, ") and l == "otherwise":
             return True
-        if t.startswith("Ne(") and ("Ne(0, " in t[:7] or t.endswith(", 0)")) and l == "otherwise":
-            return True
-        if t.startswith("Gt(") and t.endswith(", 0)") and l == "otherwise":
-            return True
-        if t.startswith("Lt(0, ") and l == "otherwise":
+        if t.startswith(("Lt(0, ", "Le(1, ")) and l == "otherwise":
             return True
     return False
 
@@ -480,7 +479,7 @@ def r4_pseudo(ctx, F):
     ok = len(ix) == 1 and [R(x, b, v) for x in v.call_args(ix[0])] == [children, "RangeFrom{start: offset}"]
     ctx.check(rule, "starts-at-offset", ok, "PseudoFs::do_readdir does not walk children[offset..]", loc=b.loc())
     g = [(R(x, b, v), l) for (x, l, u) in v.guards(ix[0].bb)] if ix else []
-    ctx.check(rule, "past-end-empty", ("Ge(offset, Vec::len(%s))" % children, 0) in g, "PseudoFs::do_readdir: offsets at or past the end must give an empty listing", loc=b.loc())
+    ctx.check(rule, "past-end-empty", (vf.neg_fact("Ge(offset, Vec::len(%s))" % children), "otherwise") in g, "PseudoFs::do_readdir: offsets at or past the end must give an empty listing", loc=b.loc())
     ctx.check(rule, "entry-fields", R(fields["ino"], b, v) == "some(Iter::next(loop(iter))).ino" and R(fields["name"], b, v) == "String::as_bytes(some(Iter::next(loop(iter))).name)"
               or ("Enumerate" in R(fields["ino"], b, v) and ".ino" in R(fields["ino"], b, v)),
               "PseudoFs::do_readdir: entry ino/name do not come from the child being walked (%s, %s)" % (R(fields["ino"], b, v)[:80], R(fields["name"], b, v)[:80]), loc=cm.loc())
@@ -521,9 +520,9 @@ def r5_server(ctx, F):
         a = [R(x, b) for x in v.call_args(c)]
         ctx.check(rule, nm + "/args", a[3:6] == ["Reader::read_obj<ReadIn>(ctx.r)?.fh", size, offset], "Server::do_readdir passes (%s) as (handle, size, offset) to fs.%s" % (", ".join(a[3:6]), nm), loc=c.loc())
         g = [(R(x, b), l) for (x, l, u) in v.guards(c.bb)]
-        ctx.check(rule, nm + "/enomem-gate", ("Lt(Writer::available_bytes(ctx.w), %s)" % size, 0) in g, "Server::do_readdir calls fs.%s although the reply buffer is smaller than `size`" % nm, loc=c.loc())
+        ctx.check(rule, nm + "/enomem-gate", (vf.neg_fact("Lt(Writer::available_bytes(ctx.w), %s)" % size), "otherwise") in g, "Server::do_readdir calls fs.%s although the reply buffer is smaller than `size`" % nm, loc=c.loc())
         ctx.check(rule, nm + "/plus-flag", ("plus", "otherwise" if nm == "readdirplus" else 0) in g, "Server::do_readdir: fs.%s is on the wrong arm of `plus`" % nm, loc=c.loc())
-    cl = {R(vf.VF(c, inline_depth=0).ret(), c) for c in F.closures_of(b.key)}
+    cl = {R(vf.VF(c, inline_depth=0).ret(), c) for c in F.closures_of(b.key) if [x for x in live_calls(c) if x.name == "add_dirent"]}
     ctx.check(rule, "closures", cl == {"sync_io::add_dirent(^cursor, ^size, d, Some(e))", "sync_io::add_dirent(^cursor, ^size, d, None)"},
               "Server::do_readdir's consumers are %s; required add_dirent(cursor, size, d, Some(e)) for plus and add_dirent(cursor, size, d, None) otherwise" % sorted(cl), loc=b.loc())
     # which closure goes to which call
